@@ -40,7 +40,7 @@ def build(dest, repo='/repo', guard=False, cc='gcc', opt='-O2', extra=()):
     def link(m):
         out = os.path.join(pkg, m + EXT)
         r = subprocess.run([cc, '-shared'] + [os.path.join(obj, u + '.o') for u in links[m]] +
-                           ['-o', out, '-llapack', '-lblas', '-lm'], capture_output=True, text=True)
+                           ['-o', out, '-llapack', '-lblas', '-lm'] + (['--coverage'] if '--coverage' in extra else []), capture_output=True, text=True)
         return m, r.returncode, r.stderr
     with cf.ThreadPoolExecutor(4) as ex:
         for m, rc, err in ex.map(link, links):
@@ -55,7 +55,7 @@ def build(dest, repo='/repo', guard=False, cc='gcc', opt='-O2', extra=()):
     libs = os.path.join(dest, 'cvxopt.libs')
     if not os.path.exists(libs):
         os.symlink(os.path.join(WHEEL, 'cvxopt.libs'), libs)
-    shutil.rmtree(obj, ignore_errors=True)
+    if '--coverage' not in extra: shutil.rmtree(obj, ignore_errors=True)          # (gcov needs the .gcno / .gcda files next to the objects)
     return pkg
 
 if __name__ == '__main__':
@@ -65,5 +65,5 @@ if __name__ == '__main__':
     if '--repo' in a:
         repo = a[a.index('--repo') + 1]
     dest = a[0]
-    build(dest, repo=repo, guard=guard)
+    build(dest, repo=repo, guard=guard, extra=(('--coverage',) if '--coverage' in a else ()), opt=('-O0' if '--coverage' in a else '-O2'))
     print(dest)
